@@ -53,9 +53,19 @@ impl MqttSink {
         if self.0.is_closed() {
             Either::Left(ready(false))
         } else {
+            let shared = self.0.clone();
             self.0.wait_readiness().map_or_else(
                 || Either::Left(ready(true)),
-                |rx| Either::Right(async move { rx.await.is_ok() }),
+                |rx| {
+                    Either::Right(async move {
+                        let ok = shared.wait_ready(rx).await.is_ok();
+                        if ok {
+                            // readiness check does not occupy the slot, let next waiter try
+                            shared.wake_waiter();
+                        }
+                        ok
+                    })
+                },
             )
         }
     }
